@@ -383,13 +383,18 @@ TOL_A = 100.0
 TOL_B = 500.0
 
 
-def check_1d_call(ctx, st, name, kw, x, y, p, w, perm_kind):
+def check_1d_call(ctx, st, name, kw, x, y, p, w, perm_kind, fit=None, history=None):
     from pybaselines import Baseline
+    tag = '' if fit is None else ':reused'
     lo, hi = float(x.min()), float(x.max())
     off, scl = (lo + hi) / 2, (hi - lo) / 2
     case = {'kind': 'oracle1d', 'method': name, 'kwargs': kw, 'poly_order': p, 'x': x.tolist(), 'y': y.tolist(),
             'weights': None if w is None else w.tolist()}
-    fit = Baseline(x)
+    if history is not None:
+        case['kind'] = 'seq1d'
+        case['history'] = list(history)     # earlier calls on the SAME Baseline object, in order
+    if fit is None:
+        fit = Baseline(x)
     kws = dict(kw)
     kws['weights'] = w
     try:
@@ -399,7 +404,7 @@ def check_1d_call(ctx, st, name, kw, x, y, p, w, perm_kind):
         return None
     b = np.asarray(b, dtype=float)
     if 'coef' not in par:
-        ctx.fail(f'coef:{name}:missing', f'{name}(return_coef=True) returned no coef', case)
+        ctx.fail(f'coef:{name}:missing{tag}', f'{name}(return_coef=True) returned no coef', case)
         return None
     c = np.asarray(par['coef'], dtype=float)
     if not np.all(np.isfinite(b)):
@@ -415,14 +420,14 @@ def check_1d_call(ctx, st, name, kw, x, y, p, w, perm_kind):
     tol_b = EPS * ratio_map * float(np.sum((np.arange(p + 1) + 1.0) ** 2 * np.abs(d))) + EPS * scale_b
     st.up(f'b:{name}', resid / tol_b)
     if resid > TOL_B * tol_b:
-        ctx.fail(f'degree:{name}', f'{name}: the returned baseline is not a polynomial of degree <= {p} in x '
+        ctx.fail(f'degree:{name}{tag}', f'{name}: the returned baseline is not a polynomial of degree <= {p} in x '
                  f'(residual of a dense degree-{p} fit {resid:.3g}, {resid / tol_b:.3g} x the rounding budget)', case)
     # (a) coefficients evaluated on the user's x reproduce the baseline
     if c.shape != (p + 1,):
-        ctx.fail(f'coef:{name}:shape', f'{name}: coef has shape {c.shape}, expected ({p + 1},)', case)
+        ctx.fail(f'coef:{name}:shape{tag}', f'{name}: coef has shape {c.shape}, expected ({p + 1},)', case)
         return None
     if not np.all(np.isfinite(c)):
-        ctx.fail(f'coef:{name}:nonfinite', f'{name}: non-finite coefficient for a finite baseline', case)
+        ctx.fail(f'coef:{name}:nonfinite{tag}', f'{name}: non-finite coefficient for a finite baseline', case)
         return None
     ev = Pn.polyval(x, c)
     bound = EPS * cond_bound(d, x, off, scl) + EPS * scale_b
@@ -431,7 +436,7 @@ def check_1d_call(ctx, st, name, kw, x, y, p, w, perm_kind):
     st.up('a:relerr-vs-baseline', float(np.max(np.abs(ev - b)) / scale_b))
     if r > TOL_A:
         i = int(np.argmax(np.abs(ev - b) / bound))
-        ctx.fail(f'coef:{name}:{"offset0" if off == 0 else "offset"}',
+        ctx.fail(f'coef:{name}:{"offset0" if off == 0 else "offset"}{tag}',
                  f'{name}: polyval(x, params["coef"]) differs from the returned baseline by {abs(ev[i] - b[i]):.3g} at x={x[i]!r} '
                  f'(baseline {b[i]:.6g}, {r:.3g} x eps x conditioning bound; domain offset {off:.3g}, scale {scl:.3g}, order {p})', case)
     return b, c, d
@@ -470,7 +475,51 @@ def oracle_1d(ctx, st, budget):
         check_loess(ctx, st, rng, x, y, trial)
 
 
-def check_poly_optimal(ctx, st, x, y, p, w, b):
+SEQ_ORDERS = [[6, 2, 4, 0], [8, 3, 3, 1], [2, 5, 1, 4], [0, 7, 2, 2], [5, 4, 3, 2], [1, 6, 0, 3]]
+
+
+def oracle_seq_1d(ctx, st, budget):
+    """Short call sequences on ONE shared Baseline(x): orders going up and down, unweighted and weighted calls,
+    different methods; every call is checked exactly like a call on a fresh object (the cached Vandermonde /
+    pseudo-inverse of _PolyHelper must never leak a stale matrix into a later call)."""
+    from pybaselines import Baseline
+    rng = np.random.default_rng(ctx.seed + 84)
+    ntr = 10 * budget
+    for trial in range(ntr):
+        x = make_x(rng, trial + 2)
+        if x is None:
+            continue
+        y = make_y(rng, x)
+        if trial % 3 == 1:
+            perm = rng.permutation(x.size)
+            x, y = x[perm], y[perm]
+        wfull = rng.uniform(0.05, 1.0, x.size)
+        wfull[rng.random(x.size) < 0.1] = 0.0
+        fit = Baseline(x)
+        orders = SEQ_ORDERS[trial % len(SEQ_ORDERS)] if trial < 2 * len(SEQ_ORDERS) else [int(v) for v in rng.integers(0, 9, int(rng.integers(2, 5)))]
+        pool = methods_1d(rng, trial)
+        history = []
+        for k, p in enumerate(orders):
+            # poly at every other position (it is the method with an optimality statement); always at least one
+            # unweighted poly call after a higher-order unweighted call
+            if trial % 2 == 0:
+                name, kw = ('poly', {}) if k % 2 == 1 or k == 0 else pool[int(rng.integers(len(pool)))]
+                w = None if (k < 2 or rng.random() < 0.5) else wfull
+            else:
+                name, kw = pool[int(rng.integers(len(pool)))] if k % 2 == 0 else ('poly', {})
+                w = wfull if rng.random() < 0.4 else None
+            if name == 'dietrich':
+                p, w = min(p, 6), None
+            res = check_1d_call(ctx, st, name, kw, x, y, p, w, 0, fit=fit, history=history)
+            ctx.case(('seq1', name, trial, k, p, w is None, ctx.seed), nontrivial=res is not None and k >= 1,
+                     kind=f"seq1d:{name}:{'unweighted' if w is None else 'weighted'}:step{k}")
+            if res is not None and name == 'poly':
+                check_poly_optimal(ctx, st, x, y, p, w, res[0], tag=':reused', history=history)
+            history.append({'method': name, 'kwargs': kw, 'poly_order': p, 'weights': None if w is None else w.tolist()})
+
+
+
+def check_poly_optimal(ctx, st, x, y, p, w, b, tag='', history=None):
     """(c) poly is the weighted least-squares optimum: compare with numpy.linalg.lstsq on an independent design."""
     lo, hi = float(x.min()), float(x.max())
     tm = mapped_ref(x, lo, hi)
@@ -483,13 +532,15 @@ def check_poly_optimal(ctx, st, x, y, p, w, b):
     sse_ref = float(np.sum(ww * (bref - y) ** 2))
     scale = float(np.sum(ww * y ** 2)) + 1e-300
     case = {'kind': 'optimal1d', 'poly_order': p, 'x': x.tolist(), 'y': y.tolist(), 'weights': None if w is None else w.tolist()}
+    if history is not None:
+        case.update({'kind': 'seq1d', 'method': 'poly', 'kwargs': {}, 'history': list(history)})
     excess = (sse - sse_ref) / scale
     # numpy's mapping off + scl*x perturbs the mapped abscissae by eps*|offset/scale|: first-order effect on the optimum
     ratio_map = abs((lo + hi) / (hi - lo)) + 1.0
     tol = 1e-11 + 10 * EPS * ratio_map
     st.up('c:sse-excess/tol', excess / tol)
     if excess > tol:
-        ctx.fail('optimal:poly:1d', f'poly: weighted squared distance {sse:.10g} exceeds the least-squares optimum {sse_ref:.10g} '
+        ctx.fail('optimal:poly:1d' + tag, f'poly{tag}: weighted squared distance {sse:.10g} exceeds the least-squares optimum {sse_ref:.10g} '
                  f'(order {p}, {"weights" if w is not None else "no weights"})', case)
     # normal equations V^T W (b - y) = 0, entrywise relative to the sum of absolute terms
     g = A.T @ (ww * (b - y))
@@ -501,7 +552,7 @@ def check_poly_optimal(ctx, st, x, y, p, w, b):
         tol_dev = 1e-8 + 1e3 * EPS * ratio_map
         st.up('c:unique-dev/tol', dev / tol_dev)
         if dev > tol_dev:
-            ctx.fail('optimal:poly:1d:unique', f'poly: baseline differs from the unique weighted least-squares polynomial by {dev:.3g} (relative)', case)
+            ctx.fail('optimal:poly:1d:unique' + tag, f'poly{tag}: baseline differs from the unique weighted least-squares polynomial by {dev:.3g} (relative)', case)
 
 
 def exact_inverse_coef(c, off, scl):
@@ -591,18 +642,43 @@ def oracle_2d(ctx, st, budget):
         lox, hix, loz, hiz = float(x.min()), float(x.max()), float(z.min()), float(z.max())
         offx, sclx, offz, sclz = (lox + hix) / 2, (hix - lox) / 2, (loz + hiz) / 2, (hiz - loz) / 2
         tmx, tmz = mapped_ref(x, lox, hix), mapped_ref(z, loz, hiz)
-        for name, kw in [('poly', {}), ('modpoly', {}), ('imodpoly', {}), ('quant_reg', {'max_iter': 15}),
-                         ('penalized_poly', {'cost_function': COSTS[trial % 6]})]:
+        # every other trial runs all its calls on ONE shared Baseline2D object (orders / max_cross / weights changing
+        # between calls, poly interleaved with the iterative methods): the cached Vandermonde / pseudo-inverse of
+        # _PolyHelper2D must never leak into a later call
+        shared = Baseline2D(x, z) if trial % 2 == 0 else None
+        Wfull = rng.uniform(0.05, 1, Y.shape)
+        Wfull[rng.random(Y.shape) < 0.1] = 0
+        calls = [('poly', {}), ('modpoly', {}), ('imodpoly', {}), ('quant_reg', {'max_iter': 15}),
+                 ('penalized_poly', {'cost_function': COSTS[trial % 6]})]
+        if shared is not None:
+            calls = [('poly', {}), ('modpoly', {}), ('poly', {}), ('imodpoly', {}), ('poly', {}),
+                     ('quant_reg', {'max_iter': 15}), ('poly', {}), ('penalized_poly', {'cost_function': COSTS[trial % 6]}), ('poly', {})]
+        history = []
+        tag = '' if shared is None else ':reused'
+        for step, (name, kw) in enumerate(calls):
+            if shared is not None:
+                W = Wfull if (step >= 3 and rng.random() < 0.4) else None
             px, pz = int(rng.integers(0, 4)), int(rng.integers(0, 4))
+            if shared is not None and step in (0, 2):
+                px, pz = (3, 3) if step == 0 else (int(rng.integers(0, 3)), int(rng.integers(0, 3)))
             order = (px, pz) if trial % 4 else max(px, pz)
             if not isinstance(order, tuple):
                 px = pz = order
             mc = [None, 0, 1, 2][int(rng.integers(0, 4))]
             case = {'kind': 'oracle2d', 'method': name, 'kwargs': kw, 'poly_order': order if not isinstance(order, tuple) else list(order),
                     'max_cross': mc, 'x': x.tolist(), 'z': z.tolist(), 'y': Y.tolist(), 'weights': None if W is None else W.tolist()}
-            ctx.case(('o2', name, trial, px, pz, mc, ctx.seed), nontrivial=px + pz >= 1, kind=f'oracle2d:{name}:max_cross={mc}')
+            if shared is not None:
+                if step in (0, 2):
+                    mc = None       # full order first, then a lower one with the same max_cross and no weights
+                case['kind'], case['history'] = 'seq2d', list(history)
+                case['max_cross'] = mc
+                history.append({'method': name, 'kwargs': kw, 'poly_order': case['poly_order'], 'max_cross': mc,
+                                'weights': None if W is None else W.tolist()})
+            ctx.case(('o2', name, trial, step, px, pz, mc, W is None, ctx.seed), nontrivial=px + pz >= 1,
+                     kind=f'oracle2d{tag}:{name}:max_cross={mc}')
             try:
-                b, par = quiet(getattr(Baseline2D(x, z), name), Y, poly_order=order, weights=W, return_coef=True, max_cross=mc, **kw)
+                b, par = quiet(getattr(shared if shared is not None else Baseline2D(x, z), name), Y, poly_order=order, weights=W,
+                               return_coef=True, max_cross=mc, **kw)
             except Exception as exc:
                 ctx.note(f'2-D {name} raised {type(exc).__name__}: {str(exc)[:80]}')
                 continue
@@ -611,7 +687,7 @@ def oracle_2d(ctx, st, budget):
             if not np.all(np.isfinite(b)):
                 continue
             if c.shape != (px + 1, pz + 1):
-                ctx.fail(f'coef2d:{name}:shape', f'2-D {name}: coef has shape {c.shape}, expected {(px + 1, pz + 1)}', case)
+                ctx.fail(f'coef2d:{name}:shape{tag}', f'2-D {name}: coef has shape {c.shape}, expected {(px + 1, pz + 1)}', case)
                 continue
             keep = masked_cols(px, pz, mc)
             A = (Pn.polyvander(tmx, px)[:, None, :, None] * Pn.polyvander(tmz, pz)[None, :, None, :]).reshape(x.size * z.size, -1)
@@ -626,10 +702,10 @@ def oracle_2d(ctx, st, budget):
             tol_b = EPS * rmap * float(np.sum(np.abs(D) * (np.arange(px + 1)[:, None] + np.arange(pz + 1)[None, :] + 1.0) ** 2)) * 10 + EPS * scale_b
             st.up(f'b2:{name}', resid / tol_b)
             if resid > TOL_B * tol_b:
-                ctx.fail(f'degree2d:{name}', f'2-D {name}: baseline is not in the span of the allowed monomials x^a z^b '
+                ctx.fail(f'degree2d:{name}{tag}', f'2-D {name}: baseline is not in the span of the allowed monomials x^a z^b '
                          f'(orders {px},{pz}, max_cross {mc}): residual {resid:.3g}, {resid / tol_b:.3g} x budget', case)
             if not np.all(np.isfinite(c)):
-                ctx.fail(f'coef2d:{name}:nonfinite', f'2-D {name}: non-finite coefficient for a finite baseline', case)
+                ctx.fail(f'coef2d:{name}:nonfinite{tag}', f'2-D {name}: non-finite coefficient for a finite baseline', case)
                 continue
             X, Z = np.meshgrid(x, z, indexing='ij')
             ev = Pn.polyval2d(X, Z, c)
@@ -643,7 +719,7 @@ def oracle_2d(ctx, st, budget):
             r = float(np.max(np.abs(ev - b) / bound))
             st.up(f'a2:{name}', r)
             if r > TOL_A:
-                ctx.fail(f'coef2d:{name}', f'2-D {name}: polyval2d(x, z, params["coef"]) differs from the returned baseline by '
+                ctx.fail(f'coef2d:{name}{tag}', f'2-D {name}: polyval2d(x, z, params["coef"]) differs from the returned baseline by '
                          f'{float(np.max(np.abs(ev - b))):.3g} ({r:.3g} x eps x conditioning bound; orders {px},{pz}, max_cross {mc})', case)
             if name == 'poly':
                 ww = np.ones(b.size) if W is None else W.ravel()
@@ -655,7 +731,7 @@ def oracle_2d(ctx, st, budget):
                 tol2 = 1e-11 + 10 * EPS * rmap
                 st.up('c2:sse-excess/tol', excess / tol2)
                 if excess > tol2:
-                    ctx.fail('optimal:poly:2d', f'2-D poly: weighted squared distance {sse:.10g} exceeds the least-squares optimum {sse_ref:.10g} '
+                    ctx.fail('optimal:poly:2d' + tag, f'2-D poly: weighted squared distance {sse:.10g} exceeds the least-squares optimum {sse_ref:.10g} '
                              f'(orders {px},{pz}, max_cross {mc})', case)
 
 
@@ -742,7 +818,8 @@ def run(ctx):
                 'exact rationals; oracle: x domains with offset 0, +-1e-3..+-1e6 and scale 1e-6..1e6 (sorted, shuffled, reversed, strictly '
                 'negative), orders 0..8, weights none/random with zeros, every 1-D polynomial method incl. all six penalized_poly cost functions, '
                 'loess coefficient rows, dietrich, and the five 2-D methods with order pairs 0..3 and max_cross None/0/1/2; '
-                'non-trivial = order >= 1 and a finite returned baseline')
+                'the same checks on every call of 2-4 (1-D) / 9 (2-D) call sequences on ONE shared Baseline / Baseline2D object with orders going up and down, '
+                'unweighted and weighted calls and mixed methods; non-trivial = order >= 1 and a finite returned baseline')
     ctx.trusted += [
         'numpy.linalg.pinv / lstsq (SVD): enter C08/NormalEq.v as a Section variable with the Moore-Penrose conditions; sampled on the matrices poly passes',
         'numpy.polynomial.polyutils.mapparms/mapdomain, polyvander, polyvander2d, scipy.special.binom, float ** int: modelled in C08/Model.v, '
@@ -762,6 +839,7 @@ def run(ctx):
     budget = (1 if ctx.tier == 'quick' else 48) if (ok and not bad and not ctx.broken) else (6 if ctx.tier == 'quick' else 48)
     probe_lower_triangle(ctx)
     oracle_1d(ctx, st, budget)
+    oracle_seq_1d(ctx, st, budget)
     oracle_2d(ctx, st, budget)
     ctx.extra['measured_max_ratios'] = {k: float(f'{v:.4g}') for k, v in sorted(st.m.items())}
     ctx.note(f'oracle budget x{budget}; thresholds: coefficient reproduction {TOL_A} x eps x conditioning bound (measured max on this run '
@@ -786,6 +864,30 @@ def replay(rep):
     if kind == 'convert2d':
         print(U._convert_coef2d(np.array(case['c'], dtype=float), case['nx'] - 1, case['nz'] - 1, np.array(case['xdom']), np.array(case['zdom'])))
         return 1
+    if kind in ('seq1d', 'seq2d'):
+        from pybaselines import Baseline, Baseline2D
+        x, y = np.array(case['x']), np.array(case['y'])
+        fit = Baseline(x) if kind == 'seq1d' else Baseline2D(x, np.array(case['z']))
+        fresh = Baseline(x) if kind == 'seq1d' else Baseline2D(x, np.array(case['z']))
+
+        def one(obj, h):
+            w = None if h.get('weights') is None else np.array(h['weights'])
+            extra = {'max_cross': h.get('max_cross')} if kind == 'seq2d' else {}
+            po = h['poly_order']
+            po = tuple(po) if isinstance(po, list) else po
+            return quiet(getattr(obj, h['method']), y, poly_order=po, return_coef=True, weights=w, **extra, **h['kwargs'])
+        for h in case.get('history', []):
+            try:
+                one(fit, h)
+            except Exception as exc:
+                print('  (earlier call raised', type(exc).__name__, ')')
+        last = {k: case.get(k) for k in ('method', 'kwargs', 'poly_order', 'weights', 'max_cross')}
+        b1, _ = one(fit, last)
+        b2, _ = one(fresh, last)
+        dev = float(np.max(np.abs(np.asarray(b1) - np.asarray(b2))))
+        print(f'{len(case.get("history", []))} earlier calls on the shared object; last call {last["method"]} order {last["poly_order"]}: '
+              f'max |baseline(reused object) - baseline(fresh object)| = {dev:.6g}')
+        return 1 if dev > 1e-6 * (float(np.abs(b2).max()) + 1e-300) else 0
     if kind == 'oracle1d':
         from pybaselines import Baseline
         x, y = np.array(case['x']), np.array(case['y'])
